@@ -192,6 +192,9 @@ inductive ObsEv where
   | present (l : Nat) (b : Buf)
   /-- it was written, or it was the one dropped after a partial write: back to the pool -/
   | done (l : Nat) (b : Buf)
+  /-- the connection is being closed: its receiver returns the buffers it has registered
+  (`receive` puts `packets[batchSize-numReusable:]` back on exit) and its sender stops -/
+  | release (c : Nat) (b : Buf)
   deriving Repr
 
 /-- status per buffer (missing = flight) -/
@@ -217,5 +220,8 @@ def obsStep (s : ObsState) : ObsEv → Except String ObsState
     | .tx l' => if l' = l then .ok s else .error "two-senders-hold-the-buffer"
     | .rx _ => .error "sender-holds-a-buffer-a-receiver-holds"
   | .done l b => if seen s b = .tx l then .ok (setSeen s b .flight) else .error "returned-buffer-not-owned"
+  | .release c b =>
+    if seen s b = .rx c ∨ seen s b = .tx c then .ok (setSeen s b .flight)
+    else .error "released-buffer-not-owned"
 
 end Scion.Pool
